@@ -10,6 +10,7 @@
 extern fiber_manager_t* vrt_wb_manager(int i);
 extern int vrt_wb_num_managers(void);
 extern void vrt_wb_register_schedulers(void);
+extern void vrt_wb_register_fiber_statics(void);
 extern void** vrt_running_slot(int idx);
 extern int vrt_in_rt_push(void);
 extern void vrt_in_rt_pop(int);
@@ -100,6 +101,7 @@ void vrt_fiber_setup(void) {
     vrt_reg_obj(nm, vrt_running_slot(i), 8, run, 1);
   }
   vrt_wb_register_schedulers();
+  vrt_wb_register_fiber_statics();
   static const char* secs[] = {"wsd_work_stealing_deque_push_bottom", "wsd_work_stealing_deque_pop_bottom",
                                "wsd_work_stealing_deque_steal", "wsd_work_stealing_deque_size"};
   for (unsigned i = 0; i < sizeof secs / sizeof secs[0]; i++) vrt_atomic_section(secs[i]);
